@@ -112,7 +112,7 @@ def tie_at_trigger(hist):
                         continue
                     if any(t == sr.fin[1] for _, t in h.enters) or any(
                             t == sr.fin[1] and kind not in ('cancelled',
-                                                            'cexc')
+                                                            'cexc', 'cret')
                             for _, t, kind in h.exits):
                         return True
         if not trig:
@@ -126,7 +126,8 @@ def tie_at_trigger(hist):
                     if t == t_trig:
                         return True
                 for _, t, kind in h.exits:
-                    if t == t_trig and kind not in ('cancelled', 'cexc') \
+                    if t == t_trig and kind not in ('cancelled', 'cexc',
+                                                    'cret') \
                             and h.nid != origin:
                         return True
     return False
